@@ -48,6 +48,45 @@ type WorkingMemory struct {
 	expressionVariableMap     map[*Variable][]*Expression
 	expressionAtomVariableMap map[*Variable][]*ExpressionAtom
 	ID                        string
+
+	// journal records the snapshots added while one resource is being built,
+	// so that a rejected resource can be taken out again. nil when no build is in progress.
+	journal *workingMemoryJournal
+}
+
+type workingMemoryJournal struct {
+	expressions     []string
+	expressionAtoms []string
+	variables       []string
+}
+
+// BeginJournal starts recording every node that gets added to this working memory.
+func (workingMem *WorkingMemory) BeginJournal() {
+	workingMem.journal = &workingMemoryJournal{}
+}
+
+// CommitJournal stops recording and keeps all recorded nodes.
+func (workingMem *WorkingMemory) CommitJournal() {
+	workingMem.journal = nil
+}
+
+// RollbackJournal stops recording and removes all nodes added since BeginJournal.
+// IndexVariables must be called afterwards.
+func (workingMem *WorkingMemory) RollbackJournal() {
+	if workingMem.journal == nil {
+
+		return
+	}
+	for _, snapshot := range workingMem.journal.expressions {
+		delete(workingMem.expressionSnapshotMap, snapshot)
+	}
+	for _, snapshot := range workingMem.journal.expressionAtoms {
+		delete(workingMem.expressionAtomSnapshotMap, snapshot)
+	}
+	for _, snapshot := range workingMem.journal.variables {
+		delete(workingMem.variableSnapshotMap, snapshot)
+	}
+	workingMem.journal = nil
 }
 
 // MakeCatalog create a catalog entry of this working memory
@@ -305,6 +344,9 @@ func (workingMem *WorkingMemory) AddExpression(exp *Expression) *Expression {
 	}
 	AstLog.Tracef("%s : Added Expression Snapshot : %s", workingMem.ID, snapshot)
 	workingMem.expressionSnapshotMap[snapshot] = exp
+	if workingMem.journal != nil {
+		workingMem.journal.expressions = append(workingMem.journal.expressions, snapshot)
+	}
 
 	return exp
 }
@@ -320,6 +362,9 @@ func (workingMem *WorkingMemory) AddExpressionAtom(exp *ExpressionAtom) *Express
 	}
 	AstLog.Tracef("%s : Added ExpressionAtom Snapshot : %s", workingMem.ID, snapshot)
 	workingMem.expressionAtomSnapshotMap[snapshot] = exp
+	if workingMem.journal != nil {
+		workingMem.journal.expressionAtoms = append(workingMem.journal.expressionAtoms, snapshot)
+	}
 
 	return exp
 }
@@ -335,6 +380,9 @@ func (workingMem *WorkingMemory) AddVariable(vari *Variable) *Variable {
 	}
 	AstLog.Tracef("%s : Added Variable Snapshot : %s", workingMem.ID, snapshot)
 	workingMem.variableSnapshotMap[snapshot] = vari
+	if workingMem.journal != nil {
+		workingMem.journal.variables = append(workingMem.journal.variables, snapshot)
+	}
 
 	return vari
 }
